@@ -12,7 +12,7 @@ Extraction "model.ml"
   sbx_equiv abi_host abi_lp32 abi_wide to_sbx to_app
   region_of same_sbx unsandbox sandbox_ptr unsandbox_noctx sandbox_ptr_noctx load_ptr_cell store_ptr_cell
   ptr_arith ptr_index_gen ptr_arith_spec arith_wraps arith_exact field_addr
-  arr_index arr_index_spec check_range range_good range_inside range_outside
+  arr_index arr_index_spec arr_index_cell ptr_arith_cell check_range range_good range_inside range_outside
   assign_raw_pointer assign_raw_pointer_vol malloc_in_sandbox app_pointer_addr
   step_pop run_chain fields_safe field_safe rep_ok
   arith_form arith_form_spec form_n form_sub
@@ -26,7 +26,7 @@ Extraction "model.ml"
   sstep srun sspec symw_init first_times
   fdecode fof_int fcompare ftruth wfcompare wfcompare_negating
   image sandbox_static_cast sandbox_ptr_cast
-  vrun cv_value cv_ptr cv_range cv_string_unique cv_string_std cmda cstrlen apply_muts cv_buffer_address cv_address cv_ptr_cell usp_cell
+  vrun cv_value cv_ptr cv_range cv_string_unique cv_string_std cmda cstrlen apply_muts cv_buffer_address cv_address cv_ptr_cell usp_cell cv_string_std_cell cv_string_unique_cell cv_range_cell cv_string_unique_cell_refetch
   cop cuop wbin wcompound ccompound cincdec wincdec code_postdec_ok common promote
   bytes_le le_val write read encode decode store_int load_int load_cv_ptr load_range range_footprint range_checked
   store_ptr load_ptr store_bits load_bits code_cv_reads_guest_width
